@@ -163,7 +163,8 @@ CHECKS['C03'] = (
     'replayed on the library: known finding F14). Gaussian94 (the other must-succeed format): g94_electron_roundtrip = _parse_electron_lines(model) of the written element block returns the shells unchanged, for every element 1..118 and rectangular shells with l < 26 (hij letters), '
     'fewer than 400 primitives (g94_am_roundtrip, g94_count_roundtrip, g94_scale_ok), with the same correspondence on written and 16 kinds of malformed blocks. The Gaussian94 ECP block too: g94_ecp_readback (the reader\'s partition_lines(before=1) modelled literally: the block is read back iff there are exactly L+1 potentials, momenta assigned by position), g94_ecp_faithful '
     '(the positions are the potentials\' own momenta iff these are L, 0, .., L-1), g94_ecp_gap_limit (F14-g94 proved on the model). Turbomole (third format whose read-back must succeed): turbomole_electron_roundtrip, with the reader\'s two nested partitions (element lines with before=1, shell lines) modelled literally. '
-    'Partial: rescaled exponents (Gaussian scaling factor other than 1), the Turbomole ECP section and the section parsers of the 11 other formats are not modelled; they are covered by the verified checker on explored inputs only.',
+    'The Turbomole $ecp section too: turbomole_ecp_roundtrip (read(write(potentials)) = potentials for every element 1..118, pairwise different momenta l <= 6, any gaps; found_max state, base-letter check and the refusal of a repeated element modelled), tm_ecp_letter / tm_ecp_letter_limit (the writer prints hij letters, the reader reads hik letters: equal up to l = 6, j unknown and k read as 7 beyond - no ECP of the store goes beyond l = 5), compared with the real writer and _parse_ecp_lines on written and 21 kinds of malformed sections. '
+    'Partial: rescaled exponents (Gaussian scaling factor other than 1) and the section parsers of the 11 other formats are not modelled; they are covered by the verified checker on explored inputs only.',
     BASE_NOTE + 'contiguous momenta up to l = 11 in generated inputs (positional formats cannot express a gap; letter classes of some readers end at l = 11).', '6/C03')
 
 CHECKS['C11'] = (
